@@ -19,7 +19,7 @@ if [ ! -e "$WT/.git" ]; then git -C /repo worktree prune; git -C /repo worktree 
 git -C "$WT" checkout -q -- . ; git -C "$WT" clean -fdq -e target
 git -C "$WT" checkout -q --detach "$(git -C /repo rev-parse HEAD)"
 case "$1" in
-  --patch) git -C "$WT" apply "$2" || { echo "patch does not apply"; exit 3; }; shift 2;;
+  --patch) git -C "$WT" apply "$(realpath "$2")" || { echo "patch does not apply"; exit 3; }; shift 2;;
   --file)  cp "$3" "$WT/$2" || exit 3; shift 3;;
   *) echo "usage"; exit 2;;
 esac
